@@ -237,7 +237,7 @@ def verdict(ck):
     t = ck.thorough()
     ck.floor('prf+ lengths compared', c['prfplus.lengths_compared'], 3000)
     ck.floor('MODP primes compared with the RFC 3526 formula', c['constants.modp_compared'], 5)
-    ck.floor('secrets with a leading zero octet fed to compute_secret', c['dh.leading_zero_secrets'], 4)
+    ck.floor('secrets with a leading zero octet fed to compute_secret', c['dh.leading_zero_secrets'], 3)
     ck.floor('direct IKE key schedules', c['schedule.direct_ike'], 50)
     ck.floor('direct rekey key schedules', c['schedule.direct_ike_rekey'], 50)
     ck.floor('direct KEYMAT derivations', c['schedule.direct_keymat'], 200)
